@@ -120,6 +120,9 @@ type Call struct {
 	// returned (-1: never). Short > 0: the body ended (cleanly) that many bytes early.
 	StallAt         int
 	BodyUnblockedNs atomic.Int64
+	// BodyCutNs: when a read of a context-bound body was refused because the context had ended
+	// before every byte was delivered (-1: never)
+	BodyCutNs atomic.Int64
 	Short           int
 	CtxDoneNs       int64 // virtual time at which the call saw ctx.Done (-1 if not)
 	CtxErr          string
@@ -563,6 +566,9 @@ type failReader struct {
 	closeErr bool
 	// stall: block after this many bytes until ctx ends or the body is closed; <0 never
 	stall int
+	// pause: the bytes from this offset on arrive one second later; <0 never
+	pause  int
+	paused bool
 	// ctxBound: reads fail once ctx has ended (bodies of background calls: only the cache
 	// ever reads them)
 	ctxBound bool
@@ -578,9 +584,24 @@ func (r *failReader) Read(p []byte) (int, error) {
 	if r.fail >= 0 && r.pos >= r.fail {
 		return 0, ErrBody
 	}
+	if r.pause >= 0 && !r.paused && r.pos >= r.pause && r.pos < len(r.data) {
+		// the rest of the body is a second late in coming (a streamed reply): the read waits
+		// for it like a read from a connection - until the data, the end of the context or Close
+		r.paused = true
+		tm := time.NewTimer(time.Second)
+		select {
+		case <-tm.C:
+		case <-r.ctx.Done():
+		case <-r.closed:
+		}
+		tm.Stop()
+	}
 	if r.ctxBound && r.ctx.Err() != nil {
 		// like the body of a net/http.Transport response: once the request's context has
 		// ended, nothing more can be read
+		if r.call != nil && r.pos < len(r.data) && r.call.BodyCutNs.Load() < 0 {
+			r.call.BodyCutNs.Store(r.now())
+		}
 		return 0, context.Cause(r.ctx)
 	}
 	if r.stall >= 0 && r.pos >= r.stall {
@@ -605,6 +626,9 @@ func (r *failReader) Read(p []byte) (int, error) {
 	}
 	if r.stall >= 0 && r.stall < lim {
 		lim = r.stall
+	}
+	if r.pause >= 0 && !r.paused && r.pause > r.pos && r.pause < lim {
+		lim = r.pause
 	}
 	n := copy(p, r.data[r.pos:lim])
 	r.pos += n
@@ -725,6 +749,7 @@ func (o *origin) RoundTrip(req *http.Request) (*http.Response, error) {
 		Reply: rp, Kind: rp.Kind, CtxDoneNs: -1, FailAt: rp.Body.FailAt,
 	}
 	call.BodyUnblockedNs.Store(-1)
+	call.BodyCutNs.Store(-1)
 	if dl, ok := req.Context().Deadline(); ok {
 		call.HasDeadline = true
 		call.DeadlineNs = int64(dl.Sub(w.t0))
@@ -864,7 +889,7 @@ func (o *origin) RoundTrip(req *http.Request) (*http.Response, error) {
 	if rp.Body.ShortBy > 0 && len(body) > 0 && (rp.Shape == "" || rp.Shape == "cl") {
 		call.Short = min(rp.Body.ShortBy, len(body))
 	}
-	fr := &failReader{data: body, fail: fail, call: call, closeErr: rp.Body.CloseErr, stall: stall, ctx: ctx, ctxBound: !fg && !rp.IgnoreCtx, closed: make(chan struct{}), now: w.now}
+	fr := &failReader{data: body, fail: fail, call: call, closeErr: rp.Body.CloseErr, stall: stall, pause: rp.Body.PauseAt - 1, ctx: ctx, ctxBound: !fg && !rp.IgnoreCtx, closed: make(chan struct{}), now: w.now}
 	if call.Short > 0 {
 		fr.data = body[:len(body)-call.Short] // fewer bytes than the Content-Length below announces, then EOF
 		call.Body = fr.data                   // what the origin delivered is what a client can get
